@@ -1,10 +1,11 @@
 #!/bin/sh
-# usage: tools/try_mutant.sh <patch.diff> <prop> [more props...]   (applies to /repo, runs quick checks, reverts)
+# usage: tools/try_mutant.sh <patch.diff> <prop> [more props...]   (applies to /repo, runs checks, reverts)
 patch="$1"; shift
 git -C /repo apply "$patch" || { echo "PATCH DOES NOT APPLY"; exit 3; }
 trap 'git -C /repo checkout -- . ' EXIT INT TERM
 for p in "$@"; do
-  echo "=== $p on $(basename $(dirname $patch))"
-  /verif/check "$p" --tier "${TIER:-quick}" 2>&1 | grep -E "VIOLATION|KNOWN-FINDING|SPEC-DRIFT|MACHINERY|^\[C|key=" | head -${LINES_MAX:-12}
-  echo "exit=$?"
+  out=$(/verif/check "$p" --tier "${TIER:-quick}" 2>&1); rc=$?
+  echo "=== $p on $(basename $(dirname $patch)): exit=$rc violations=$(echo "$out" | grep -c '^VIOLATION') drift=$(echo "$out" | grep -c '^SPEC-DRIFT') machinery=$(echo "$out" | grep -c 'MACHINERY')"
+  echo "$out" | grep -A1 '^VIOLATION' | grep 'key=' | cut -c1-${W:-160} | sort | uniq -c | sort -rn | head -${N:-3}
+  echo "$out" | grep 'MACHINERY' | head -2 | cut -c1-300
 done
